@@ -41,13 +41,10 @@ def session_table(prog):
             for t in n.targets:
                 if isinstance(t, ast.Subscript) and isinstance(t.value, ast.Name):
                     nm = t.value.id
-                    if nm in m.consts:
-                        return "server", nm
-                    if nm in m.imports:
-                        r = prog.resolve(m.imports[nm])
-                        if r:
-                            return r[0], r[1]
-    return "server", "sessions"
+                    loc_ = prog.locate(getattr(fn, "_home", "server"), nm)  # where the table is defined, seen from the handler's module
+                    if loc_ is not None:
+                        return loc_
+    return prog.locate("server", "sessions") or ("server", "sessions")
 
 
 class ServerHooks(Hooks):
@@ -137,6 +134,8 @@ def rule_auth(ctx):
             return (mm.name == tmod and e.id == tname) or prog.resolve(mm.imports.get(e.id, "")) == (tmod, tname)
         return isinstance(e, ast.Attribute) and e.attr == tname and prog.resolve(prog.dotted(mm, e) or "") == (tmod, tname)
 
+    hm_name = getattr(prog.fn("server", "login_request"), "_home", "server")  # the module the handlers live in
+    hm = prog.modules[hm_name]
     for mm in prog.modules.values():
         for qual, f in mm.functions.items():
             for n in ast.walk(f):
@@ -144,25 +143,25 @@ def rule_auth(ctx):
                     tg = n.targets if isinstance(n, (ast.Assign, ast.Delete)) else [n.target]
                     for t in tg:
                         if isinstance(t, ast.Subscript) and is_table(t.value, mm):
-                            writers.append((qual if mm.name == "server" else f"{mm.name}.{qual}", n))
+                            writers.append((qual if mm.name == hm_name else f"{mm.name}.{qual}", n))
                 if isinstance(n, ast.Call) and isinstance(n.func, ast.Attribute) and is_table(n.func.value, mm) \
                         and n.func.attr in ("pop", "clear", "update", "setdefault", "popitem", "__setitem__"):
-                    writers.append((qual if mm.name == "server" else f"{mm.name}.{qual}", n))
+                    writers.append((qual if mm.name == hm_name else f"{mm.name}.{qual}", n))
     def reach(root):
         """functions of server.py reachable from a handler through direct calls"""
         seen, todo = {root}, [root]
         while todo:
-            f_ = m.functions.get(todo.pop())
+            f_ = hm.functions.get(todo.pop())
             if f_ is None:
                 continue
             for c in ast.walk(f_):
-                if isinstance(c, ast.Call) and isinstance(c.func, ast.Name) and c.func.id in m.functions and c.func.id not in seen:
+                if isinstance(c, ast.Call) and isinstance(c.func, ast.Name) and c.func.id in hm.functions and c.func.id not in seen:
                     seen.add(c.func.id)
                     todo.append(c.func.id)
         return seen
 
     login_side = reach("login_request")
-    other_side = set().union(*[reach(h) for h in m.functions if h.endswith("_request") and h != "login_request"]) if m.functions else set()
+    other_side = set().union(*[reach(h) for h in hm.functions if h.endswith("_request") and h != "login_request"]) if hm.functions else set()
     # a writer belongs to the login handler: the handler itself or a helper only it reaches
     bad = [w for w in writers if not (w[0] in login_side and w[0] not in other_side)]
     ctx.ob("C17.a", "the session table is written only by the login handler", not bad and bool(writers), m.path)
